@@ -759,6 +759,45 @@ func c15StateCheckHook(s *omSys, init int, ops []uint16, which string, hook func
 			return "copy-error", err.Error()
 		}
 		back = cp
+	case "diff":
+		// the same entries in another order are a DIFFERENT list: rot = copy of the state with its first entry
+		// moved to the end (Delete + Append on the copy); DiffWithAtomic(state, rot) applied to another copy of
+		// the state must produce rot's order
+		if len(wantOrder) < 2 {
+			return "", ""
+		}
+		var rot, twin ygot.GoStruct
+		if err := safeErr(func() (e error) {
+			if rot, e = ygot.DeepCopy(x.root); e != nil {
+				return e
+			}
+			twin, e = ygot.DeepCopy(x.root)
+			return e
+		}); err != nil {
+			return "copy-error", err.Error()
+		}
+		rf := reflect.ValueOf(rot)
+		for _, cn := range s.site.Containers {
+			rf = rf.Elem().FieldByName(cn)
+		}
+		rf = rf.Elem().FieldByName(s.site.Field)
+		k0 := callM(rf, "Keys")[0].Index(0)
+		e0 := callM(rf, "Get", k0)[0]
+		callM(rf, "Delete", k0)
+		if r := callM(rf, "Append", e0); len(r) > 0 && !r[len(r)-1].IsNil() {
+			return "diff-setup-error", fmt.Sprint(r[len(r)-1].Interface())
+		}
+		wantOrder = append(append([]string{}, wantOrder[1:]...), wantOrder[0])
+		want = p.Observe(rot)
+		ns, err := safeNotifs(func() ([]*gpb.Notification, error) { return ygot.DiffWithAtomic(x.root, rot) })
+		if err != nil {
+			return "diff-error", err.Error()
+		}
+		sch := &ytypes.Schema{Root: twin, SchemaTree: p.Schema().SchemaTree, Unmarshal: p.Schema().Unmarshal}
+		if err := safeErr(func() error { return ytypes.UnmarshalNotifications(sch, ns) }); err != nil {
+			return "diff-apply-error", fmt.Sprintf("%v notifications=%v", err, ns)
+		}
+		back = twin
 	}
 	// order read directly through the generated API of the result
 	cur := reflect.ValueOf(back)
@@ -780,7 +819,7 @@ func c15StateCheckHook(s *omSys, init int, ops []uint16, which string, hook func
 		return which + "-order", fmt.Sprintf("order %v became %v", wantOrder, gotOrder)
 	}
 	got := p.Observe(back)
-	if which == "gnmi" {
+	if which == "gnmi" || which == "diff" {
 		if got.LeafCanon(true) != want.LeafCanon(true) {
 			return which + "-tree", core.DiffCanon(want.LeafCanon(true), got.LeafCanon(true))
 		}
@@ -804,7 +843,7 @@ func c15Render(p *core.Pkg, root ygot.GoStruct, which string) {
 	}
 }
 
-var c15Checks = []string{"json", "gnmi", "copy", "json+hist", "gnmi+hist", "copy+hist"}
+var c15Checks = []string{"json", "gnmi", "copy", "diff", "json+hist", "gnmi+hist", "copy+hist"}
 
 func c15Pkgs(c *core.Ctx) []string {
 	var out []string
@@ -820,7 +859,7 @@ func runC15(c *core.Ctx) {
 	if c.Thorough() {
 		full = "4 (packages vtus, vtuw, voccs; 3 in the other packages)"
 	}
-	c.Rule = fmt.Sprintf("seqmc: for every ordered-by-user list of the 8 corpus packages (single-key ol/olx/rule, two-key ol2), breadth-first search over call histories of length <= %d from a nil and from an empty ordered map; alphabet = {AppendNew(k), Append(e_k), Append(nil), Append(entry with a nil key leaf, one per key leaf), Delete(k), Get(k), Keys(), Values(), Len()} on the map plus the parent's AppendNew<L>/Append<L>/Get<L>/Delete<L> (and Append<L> of nil / nil-key entries), k from a 3-key domain (two-key tuples share components); every successor is the replay of the whole history on a fresh generated struct; states deduplicated by (receiver nil-ness, key order, entry identity by birth index, births); after every call return values, Keys(), Values(), Len(), Get(k) for every k, entry identities and key leaves are compared with a slice of (key, identity), the slices returned by Keys()/Values() are overwritten and re-read, rejected and read-only calls must leave the reflect dump of the parent struct (the list incl. its unexported keys/valueMap fields, every entry, all siblings) unchanged; additionally ALL histories of length %s are executed without deduplication; in every distinct state the order must survive Marshal7951->Unmarshal, TogNMINotifications->UnmarshalNotifications and DeepCopy, each also with the same rendering performed (and discarded) in the initial state and after every call of the history on the object the later calls mutate (anything a renderer remembers about a list must not go stale); non-trivial = state with >= 2 entries", depth, full)
+	c.Rule = fmt.Sprintf("seqmc: for every ordered-by-user list of the 8 corpus packages (single-key ol/olx/rule, two-key ol2), breadth-first search over call histories of length <= %d from a nil and from an empty ordered map; alphabet = {AppendNew(k), Append(e_k), Append(nil), Append(entry with a nil key leaf, one per key leaf), Delete(k), Get(k), Keys(), Values(), Len()} on the map plus the parent's AppendNew<L>/Append<L>/Get<L>/Delete<L> (and Append<L> of nil / nil-key entries), k from a 3-key domain (two-key tuples share components); every successor is the replay of the whole history on a fresh generated struct; states deduplicated by (receiver nil-ness, key order, entry identity by birth index, births); after every call return values, Keys(), Values(), Len(), Get(k) for every k, entry identities and key leaves are compared with a slice of (key, identity), the slices returned by Keys()/Values() are overwritten and re-read, rejected and read-only calls must leave the reflect dump of the parent struct (the list incl. its unexported keys/valueMap fields, every entry, all siblings) unchanged; additionally ALL histories of length %s are executed without deduplication; in every distinct state the order must survive Marshal7951->Unmarshal, TogNMINotifications->UnmarshalNotifications and DeepCopy, and DiffWithAtomic(state, state with its first entry moved to the end) applied to a copy of the state must yield the moved order; the first three each also with the same rendering performed (and discarded) in the initial state and after every call of the history on the object the later calls mutate (anything a renderer remembers about a list must not go stale); non-trivial = state with >= 2 entries", depth, full)
 	c.R.Assume("entry identity is pointer identity of the generated entry structs; key equality is Go == on the generated key types")
 	c.R.Assume("a rejected parent helper (Append<L>(nil) ...) on a nil field may instantiate the empty ordered map: not judged, counted")
 	sites := seqSites(c15Pkgs(c), true, false)
